@@ -7,6 +7,9 @@ package main
 import (
 	"fmt"
 	"go/ast"
+	"io/fs"
+	"path/filepath"
+	"sort"
 	"strings"
 )
 
@@ -228,7 +231,212 @@ func genC06(repo string) (string, error) {
 	if err := genC06Merge(repo, &b); err != nil {
 		return "", err
 	}
+	if err := genC06NullsSites(repo, &b); err != nil {
+		return "", err
+	}
 	return b.String(), nil
+}
+
+// genC06NullsSites: every place of the repository (non-test Go files) that constructs a value
+// comparator — expr.NewComparator / NewCompareFn / NewValueCompareFn, zbuf.NewComparator /
+// NewComparatorNullsMax, lake.ImportComparator — with the expression passed for nullsMax; when that
+// is a local variable, the statements of the enclosing function that assign it (with the guarding
+// `if` condition).
+func genC06NullsSites(repo string, b *strings.Builder) error {
+	argIndex := map[string]int{"NewComparator": 0, "NewCompareFn": 0, "NewValueCompareFn": 1}
+	type site struct{ where, callee, nullsMax string }
+	var sites []site
+	var files []string
+	err := filepath.WalkDir(repo, func(path string, d fs.DirEntry, err error) error {
+		if err != nil {
+			return err
+		}
+		if d.IsDir() {
+			if n := d.Name(); n == ".git" || n == "vendor" || n == "node_modules" || n == "testdata" {
+				return filepath.SkipDir
+			}
+			return nil
+		}
+		if strings.HasSuffix(path, ".go") && !strings.HasSuffix(path, "_test.go") {
+			rel, _ := filepath.Rel(repo, path)
+			files = append(files, rel)
+		}
+		return nil
+	})
+	if err != nil {
+		return err
+	}
+	sort.Strings(files)
+	for _, rel := range files {
+		f, err := parseFile(repo, rel)
+		if err != nil {
+			return err
+		}
+		pkg := f.f.Name.Name
+		for _, d := range f.f.Decls {
+			fd, ok := d.(*ast.FuncDecl)
+			if !ok || fd.Body == nil {
+				continue
+			}
+			fname := fd.Name.Name
+			if fd.Recv != nil && len(fd.Recv.List) == 1 {
+				t := fd.Recv.List[0].Type
+				if st, ok := t.(*ast.StarExpr); ok {
+					t = st.X
+				}
+				if id, ok := t.(*ast.Ident); ok {
+					fname = id.Name + "." + fname
+				}
+			}
+			// assignments to local identifiers, with the condition of a directly enclosing if
+			assigns := map[string][]string{}
+			var walk func(n ast.Node, cond string)
+			walk = func(n ast.Node, cond string) {
+				ast.Inspect(n, func(n ast.Node) bool {
+					switch x := n.(type) {
+					case *ast.IfStmt:
+						if x.Init != nil {
+							walk(x.Init, cond)
+						}
+						walk(x.Body, "if "+renderExpr(f, x.Cond)+" ")
+						if x.Else != nil {
+							walk(x.Else, "if !("+renderExpr(f, x.Cond)+") ")
+						}
+						return false
+					case *ast.AssignStmt:
+						for _, l := range x.Lhs {
+							if id, ok := l.(*ast.Ident); ok {
+								assigns[id.Name] = append(assigns[id.Name], cond+renderStmt(f, x))
+							}
+						}
+					}
+					return true
+				})
+			}
+			walk(fd.Body, "")
+			ast.Inspect(fd.Body, func(n ast.Node) bool {
+				call, ok := n.(*ast.CallExpr)
+				if !ok {
+					return true
+				}
+				var q, name string
+				switch fn := call.Fun.(type) {
+				case *ast.SelectorExpr:
+					if x, ok := fn.X.(*ast.Ident); ok {
+						q, name = x.Name, fn.Sel.Name
+					}
+				case *ast.Ident:
+					q, name = pkg, fn.Name
+				}
+				callee := q + "." + name
+				switch {
+				case q == "expr" && (name == "NewComparator" || name == "NewCompareFn" || name == "NewValueCompareFn"):
+					i := argIndex[name]
+					if i >= len(call.Args) {
+						return true
+					}
+					arg := renderExpr(f, call.Args[i])
+					if id, ok := call.Args[i].(*ast.Ident); ok && id.Name != "true" && id.Name != "false" {
+						if as := assigns[id.Name]; len(as) > 0 {
+							arg = strings.Join(as, "; ")
+						} else {
+							arg = "parameter " + id.Name
+						}
+					}
+					sites = append(sites, site{rel + ":" + fname, callee, arg})
+				case callee == "zbuf.NewComparator" || callee == "zbuf.NewComparatorNullsMax" || callee == "lake.ImportComparator":
+					sites = append(sites, site{rel + ":" + fname, callee, "(by callee)"})
+				}
+				return true
+			})
+		}
+	}
+	var rows []string
+	for _, s := range sites {
+		rows = append(rows, fmt.Sprintf("(%s, %s, %s)", leanStr(s.where), leanStr(s.callee), leanStr(s.nullsMax)))
+	}
+	fmt.Fprintf(b, "/-- every construction of a value comparator: (file:function, constructor, what is passed for nullsMax) -/\ndef comparatorSites : List (String × String × String) :=\n  [%s]\n", strings.Join(rows, ",\n   "))
+
+	// sort.Op.setComparator from `nullsMax := …` on: -r flips the directions first
+	sf, err := parseFile(repo, "runtime/sam/op/sort/sort.go")
+	if err != nil {
+		return err
+	}
+	fd, err := sf.funcDecl("Op", "setComparator")
+	if err != nil {
+		return err
+	}
+	var tail []string
+	on := false
+	for _, s := range fd.Body.List {
+		if strings.HasPrefix(renderStmt(sf, s), "nullsMax :=") {
+			on = true
+		}
+		if on {
+			tail = append(tail, renderStmt(sf, s))
+		}
+	}
+	fmt.Fprintf(b, "def sortSetComparator : List String := %s\n", leanStrList(tail))
+	// the compare() function: default of the third argument and the choice of the comparator
+	cf, err := parseFile(repo, "runtime/sam/expr/function/compare.go")
+	if err != nil {
+		return err
+	}
+	fd, err = cf.funcDecl("Compare", "Call")
+	if err != nil {
+		return err
+	}
+	var call []string
+	for _, s := range fd.Body.List {
+		r := renderStmt(cf, s)
+		if is, ok := s.(*ast.IfStmt); ok && !strings.Contains(r, "cmp = ") {
+			r = "if " + renderExpr(cf, is.Cond) + " { … nullsMax = args[2].Bool() }"
+			if !strings.Contains(renderStmt(cf, s), "nullsMax = args[2].Bool()") {
+				r = renderStmt(cf, s)
+			}
+		}
+		call = append(call, r)
+	}
+	fmt.Fprintf(b, "def compareFuncCall : List String := %s\n", leanStrList(call))
+	// the optimizer's range pruning calls compare(lhs, rhs, <literal>)
+	of, err := parseFile(repo, "compiler/optimizer/optimizer.go")
+	if err != nil {
+		return err
+	}
+	fd, err = of.funcDecl("", "compare")
+	if err != nil {
+		return err
+	}
+	fmt.Fprintf(b, "def optimizerCompare : List String := %s\n", leanStrList(renderStmts(of, fd.Body.List)))
+	// lake.ImportComparator and the parallelizer's guard for replacing a sort by a merge
+	lf, err := parseFile(repo, "lake/writer.go")
+	if err != nil {
+		return err
+	}
+	fd, err = lf.funcDecl("", "ImportComparator")
+	if err != nil {
+		return err
+	}
+	fmt.Fprintf(b, "def importComparator : List String := %s\n", leanStrList(renderStmts(lf, fd.Body.List)))
+	pf, err := parseFile(repo, "compiler/optimizer/parallelize.go")
+	if err != nil {
+		return err
+	}
+	guard := ""
+	ast.Inspect(pf.f, func(n ast.Node) bool {
+		cc, ok := n.(*ast.CaseClause)
+		if !ok || len(cc.List) != 1 || renderExpr(pf, cc.List[0]) != "*dag.Sort" || guard != "" {
+			return true
+		}
+		for _, s := range cc.Body {
+			if is, ok := s.(*ast.IfStmt); ok && strings.Contains(renderExpr(pf, is.Cond), "NullsFirst") {
+				guard = renderExpr(pf, is.Cond) + " => " + strings.Join(renderStmts(pf, is.Body.List), "; ")
+			}
+		}
+		return true
+	})
+	fmt.Fprintf(b, "/-- parallelize.go, case *dag.Sort: when the sort is NOT replaced by per-leg sorts and a merge -/\ndef parallelSortGuard : String := %s\n", leanStr(guard))
+	return nil
 }
 
 // genC06Merge: the shape of merge.Op (what Pull pops, the whole-batch emission rule, the fall back to
